@@ -18,7 +18,7 @@ RULE = ("Prior configurations of the C01 grammar assembled through JokerPrior.de
         "ln_likelihood deterministic == that Gaussian term and ln_prior == logp - ln_likelihood; mcmc_init == the chosen "
         "sample (itself, or the median-period member) in the prior's units. Non-trivial: a configuration whose prior "
         "units differ from (day, data unit), or with offsets, poly_trend>=2 or sampled jitter."
-        " Also: dict / tuple data, explicit reference epochs on the UTC scale, priors with the eccentricity held constant (0 or 0.3); RV tolerance 1e-8 K except within 1e-3 rad of the pymc Kepler solver's weak spot.")
+        " Also: dict / tuple data, explicit reference epochs on the UTC scale, priors with the eccentricity held constant (0 or 0.3); RV tolerance 1e-6 K (2e-5 K within 1e-3 rad of the pymc Kepler solver's weak spot).")
 SHARDS = {"quick": 4, "thorough": 16}
 BUDGET = {"quick": 85, "thorough": 800}
 
@@ -185,7 +185,7 @@ def body_factory(ctx):
             # |M - pi| < 1e-5 at high eccentricity (measured; elsewhere 1e-13) - far below any data error
             Mt = 2 * math.pi * (prob.t - prob.t_ref) / P_d - pt_["M0"]
             near_pi = float(np.min(np.abs(np.mod(Mt, 2 * math.pi) - math.pi))) < 1e-3
-            tol = 1e-8 * scale * (1 + 2 * math.pi * (prob.t.max() - prob.t_ref) / P_d * 1e-7 / (1 - e)) + (2e-5 if near_pi else 1e-8) * abs(x_du[0])
+            tol = 1e-8 * scale * (1 + 2 * math.pi * (prob.t.max() - prob.t_ref) / P_d * 1e-7 / (1 - e)) + (2e-5 if near_pi else 1e-6) * abs(x_du[0])
             if model_rv.shape != want_rv.shape or np.max(np.abs(model_rv - want_rv)) > tol:
                 used_f5 = False
                 if "F5" in prob.applicable_flags(row):
